@@ -212,6 +212,11 @@ TrApiRet ==
        /\ bad' = bad \cup (IF want = "?" THEN {<<l, "returnedunrouted">>}
                            ELSE IF isCallForm /\ got # want THEN {<<l, "errkind">>}
                            ELSE IF ~isCallForm /\ (want = "none") # (got = "none") THEN {<<l, "errkind">>} ELSE {})
+                     \* Call, CallWithContext, Ping and NewStream report the outcome to the target they were routed to: after a
+                     \* failed dial that target is marked unreachable (estimate at the maximum, probed again by the detector)
+                     \cup (IF E.k \in {"call", "ctx", "ping", "stream"} /\ got = "dial" /\ cst[k] = "routed" /\ cvia[k] = "target"
+                              /\ croute[k] \in targets /\ talive[croute[k]]
+                           THEN {<<l, "notmarkeddead">>} ELSE {})
        /\ cst' = [cst EXCEPT ![k] = "idle"] /\ cerr' = [cerr EXCEPT ![k] = "none"]
        /\ croute' = [croute EXCEPT ![k] = NoAddr] /\ cvia' = [cvia EXCEPT ![k] = "none"]
     /\ UNCHANGED <<targets, gen, talive, lat, list, lastSet, pos, probeDue, waiters, closed, fallback, probes, health, director,
@@ -238,6 +243,6 @@ TrAccepted == IF TLCGet(1) = Len(Trace) + 1 THEN TRUE
 BadWhat(w) == \A o \in bad : o[2] # w
 RouteOK == BadWhat("updateignored") /\ BadWhat("notdirector") /\ BadWhat("notinlist") /\ BadWhat("wrongroute") /\ BadWhat("nottarget") /\ BadWhat("updatesize")     \* C16
 PolicyOK == BadWhat("singlepath") /\ BadWhat("cursor") /\ BadWhat("notminimal") /\ BadWhat("probetoooften")
-            /\ BadWhat("policy") /\ BadWhat("ewma") /\ BadWhat("deadnotmax")                                  \* C17
+            /\ BadWhat("policy") /\ BadWhat("ewma") /\ BadWhat("deadnotmax") /\ BadWhat("notmarkeddead")                                  \* C17
 WaitersOK == BadWhat("notreleased") /\ BadWhat("stranded") /\ BadWhat("errkind") /\ BadWhat("returnedunrouted")                       \* C18
 ================================================================================
